@@ -71,15 +71,15 @@ _ATOMS_CACHE = {}
 _BLOCKS_CACHE = {}
 
 
-def atoms_of(pat):
+def atoms_of(pat, flags=0):
     """[(compiled single-character regex, positive?)] for every character atom of the pattern (a pure function of the
-    pattern text: kept per pattern)"""
-    if pat not in _ATOMS_CACHE:
-        _ATOMS_CACHE[pat] = _atoms_of(pat)
-    return _ATOMS_CACHE[pat]
+    pattern text and the flags: kept per pattern)"""
+    if (pat, flags) not in _ATOMS_CACHE:
+        _ATOMS_CACHE[(pat, flags)] = _atoms_of(pat, flags)
+    return _ATOMS_CACHE[(pat, flags)]
 
 
-def _atoms_of(pat):
+def _atoms_of(pat, flags=0):
     out = []
 
     def walk(sub):
@@ -110,12 +110,12 @@ def _atoms_of(pat):
                 walk(av)
             else:
                 raise Unsupported('regular expression construct %r' % (op,))
-    walk(sre_parse.parse(pat))
+    walk(sre_parse.parse(pat, flags))
     seen = []
     for src, pos in out:
         if (src, pos) not in seen:
             seen.append((src, pos))
-    return [(re.compile(src, re.DOTALL), pos) for src, pos in seen]
+    return [(re.compile(src, re.DOTALL | (flags & (re.IGNORECASE | re.ASCII))), pos) for src, pos in seen]
 
 
 def signature(atoms, ch):
@@ -125,7 +125,7 @@ def signature(atoms, ch):
 def blocks(atoms, alphabet):
     """{signature: [chars]} and the generic signature (no positive atom matches) if present; a pure function of the
     atoms' sources and the alphabet: kept"""
-    key = (tuple((rx.pattern, pos) for rx, pos in atoms), ''.join(alphabet))
+    key = (tuple((rx.pattern, rx.flags, pos) for rx, pos in atoms), ''.join(alphabet))
     if key not in _BLOCKS_CACHE:
         _BLOCKS_CACHE[key] = _blocks(atoms, alphabet)
     out, generic = _BLOCKS_CACHE[key]
@@ -326,7 +326,7 @@ class Result:
 
 def run(kind, pat, s, policy, flags=0, maxsplit=0):
     """match ``pat`` against the abstract string; returns Result (spans on the generic spelling)"""
-    atoms = atoms_of(pat)
+    atoms = atoms_of(pat, flags)
     rx = re.compile(pat, flags)
     sp = Spelling(s, atoms, policy)
     spans = _spans(kind, rx, sp.text, maxsplit)
